@@ -106,6 +106,10 @@ func (sc *Scheduler) Schedule(ctx context.Context, g *ExecutionGraph, done chan 
 
 	var wg = sync.WaitGroup{}
 
+	// Lifecycle handlers run with the caller's context: the DAG timeout must
+	// not prevent the exit / failure / cancel handlers from being executed.
+	handlerCtx := ctx
+
 	var cancel context.CancelFunc
 	if sc.timeout > 0 {
 		ctx, cancel = context.WithTimeout(ctx, sc.timeout)
@@ -259,7 +263,7 @@ func (sc *Scheduler) Schedule(ctx context.Context, g *ExecutionGraph, done chan 
 			n.data.Step.OutputVariables = g.outputVariables
 			n.mu.Unlock()
 
-			if err := sc.runHandlerNode(ctx, n); err != nil {
+			if err := sc.runHandlerNode(handlerCtx, n); err != nil {
 				sc.setLastError(err)
 			}
 			if done != nil {
